@@ -1,6 +1,7 @@
 package sx
 
 import (
+	"encoding/json"
 	"fmt"
 	"go/types"
 	"math"
@@ -289,6 +290,103 @@ func registerIntrinsics(p *Program) {
 		}
 		return Tuple{v, true}
 	})
+	// bytes.Compare / bytes.Equal over byte slices that may hold symbolic bytes
+	bytesLess := func(m *Machine, a, b []Value, orEqual bool) *smt.Term {
+		c := m.Ctx
+		n := len(a)
+		if len(b) < n {
+			n = len(b)
+		}
+		var tail *smt.Term
+		switch {
+		case len(a) < len(b):
+			tail = c.True
+		case len(a) > len(b):
+			tail = c.False
+		default:
+			tail = c.Bool(orEqual)
+		}
+		for i := n - 1; i >= 0; i-- {
+			ai, bi := m.intTerm(a[i]), m.intTerm(b[i])
+			tail = c.Or(c.Lt(ai, bi), c.And(c.Eq(ai, bi), tail))
+		}
+		return m.simp(tail)
+	}
+	model("bytes.Compare", func(m *Machine, fr *frame, args []Value) Value {
+		a, b := args[0].([]Value), args[1].([]Value)
+		c := m.Ctx
+		lt, le := bytesLess(m, a, b, false), bytesLess(m, a, b, true)
+		return m.intVal(c.Ite(lt, c.Int(-1), c.Ite(le, c.Int(0), c.Int(1))))
+	})
+	model("bytes.Equal", func(m *Machine, fr *frame, args []Value) Value {
+		a, b := args[0].([]Value), args[1].([]Value)
+		if len(a) != len(b) {
+			return false
+		}
+		c := m.Ctx
+		var cs []*smt.Term
+		for i := range a {
+			cs = append(cs, c.Eq(m.intTerm(a[i]), m.intTerm(b[i])))
+		}
+		return unTerm(m.simp(c.And(cs...)))
+	})
+
+	// encoding/json.Number methods on the text of a symbolic json.Number
+	model("(encoding/json.Number).String", func(m *Machine, fr *frame, args []Value) Value { return args[0] })
+	model("(encoding/json.Number).Int64", func(m *Machine, fr *frame, args []Value) Value {
+		as, ok := args[0].(*AStr)
+		if !ok {
+			s, _ := args[0].(string)
+			v, err := json.Number(s).Int64()
+			if err != nil {
+				return Tuple{v, p.mkErr(err.Error())}
+			}
+			return Tuple{v, Iface{}}
+		}
+		n, ok := m.jnTexts[as.T]
+		if !ok {
+			unsupported("json.Number.Int64 of an abstract string")
+		}
+		c := m.Ctx
+		ii := intInfos[types.Int64]
+		bad := c.False
+		if n.JBad != nil {
+			bad = n.JBad
+		}
+		// strconv.ParseInt: plain integer literal within range
+		if m.Branch(c.And(c.Not(bad), c.Eq(n.JK, c.Int(0)), c.InRange(n.JN, ii.lo, ii.hi)), "json.Number.Int64 parses") {
+			return Tuple{m.intVal(n.JN), Iface{}}
+		}
+		return Tuple{int64(0), p.mkErr("strconv.ParseInt: invalid syntax or out of range")}
+	})
+	model("(encoding/json.Number).Float64", func(m *Machine, fr *frame, args []Value) Value {
+		as, ok := args[0].(*AStr)
+		if !ok {
+			s, _ := args[0].(string)
+			v, err := json.Number(s).Float64()
+			if err != nil {
+				return Tuple{v, p.mkErr(err.Error())}
+			}
+			return Tuple{v, Iface{}}
+		}
+		n, ok := m.jnTexts[as.T]
+		if !ok {
+			unsupported("json.Number.Float64 of an abstract string")
+		}
+		c := m.Ctx
+		if n.JBad != nil && m.Branch(n.JBad, "json.Number.Float64 bad") {
+			return Tuple{math.Inf(1), p.mkErr("strconv.ParseFloat: value out of range")}
+		}
+		if k, isConst := m.simp(n.JK).Int64(); isConst && k == 0 {
+			return Tuple{m.intToFloat(SymInt{n.JN}, false), Iface{}}
+		}
+		if m.Branch(c.Eq(n.JK, c.Int(0)), "json.Number.Float64 integral text") {
+			return Tuple{m.intToFloat(SymInt{n.JN}, false), Iface{}}
+		}
+		unsupported("json.Number.Float64 of a decimal fraction (decimal-to-binary rounding is not modelled)")
+		return nil
+	})
+
 	// sync.Pool: Get returns an object Put earlier in this execution or a fresh New() (both
 	// are explored); an object in the pool outlives the call that put it there.
 	type poolState struct{ items []Value }
